@@ -272,8 +272,6 @@ def units():
         u["backend"] = "kissat"
         if nm in ("SFC_SET_VBR_ENCODING_QUALITY", "SFC_SET_OGG_PAGE_LATENCY_MS"):
             u["enforce_rec"] = True
-            u["tier"] = "thorough"
-            u["timeout"] = 3600
         if nm in ("SFC_GET_CHANNEL_MAP_INFO", "SFC_SET_CHANNEL_MAP_INFO", "SFC_SET_ADD_PEAK_CHUNK", "SFC_CALC_MAX_ALL_CHANNELS",
                   "SFC_CALC_NORM_MAX_ALL_CHANNELS", "SFC_GET_MAX_ALL_CHANNELS"):
             # sizes proportional to the channel count: enumerate it (symbolic-size memcpy/calloc are out of reach)
@@ -296,9 +294,7 @@ def units():
                 v["name"] = u["name"] + ".ch%d" % ch
                 v["defines"] = u["defines"] + ["-DFIX_CH=%d" % ch, "-DMODEL_MEMCPY"]
                 v["kind"] = "enumerated(channels=%d)" % ch
-                v["tier"] = "quick" if (ch in (2, 3) and nm not in ("SFC_SET_CHANNEL_MAP_INFO", "SFC_SET_ADD_PEAK_CHUNK")) else "thorough"
-                if nm in ("SFC_SET_CHANNEL_MAP_INFO", "SFC_SET_ADD_PEAK_CHUNK"):
-                    v["timeout"] = 3600
+                v["tier"] = "quick" if ch in (2, 3) else "thorough"
                 U.append(v)
             continue
         U.append(u)
